@@ -228,7 +228,7 @@ def task_warn(n):
 
     b = [Real("b%d" % i) for i in range(n)]
     z = [Int("z%d" % i) for i in range(n)]
-    assum = [x.t > 0 for x in b] + [x.t >= -4 for x in z] + [x.t <= 4 for x in z]
+    assum = [x.t >= 0 for x in b] + [x.t >= -4 for x in z] + [x.t <= 4 for x in z]   # a species may be listed with zero molality
 
     def fn():
         with warnings.catch_warnings(record=True) as w:
@@ -273,6 +273,6 @@ def tasks(tier, seed):
             ts.append(dict(id="C18.%s" % c["name"], fn="task_ratio", kwargs=dict(casename=c["name"]), timeout=600))
         else:
             ts.append(dict(id="C18.%s" % c["name"], fn="task_case", kwargs=dict(casename=c["name"]), timeout=600))
-    for n in ([2, 3] if tier == "quick" else [2, 3, 4]):
+    for n in ([1, 2, 3] if tier == "quick" else [1, 2, 3, 4]):
         ts.append(dict(id="C18.neutrality_warning.%d" % n, fn="task_warn", kwargs=dict(n=n), timeout=600))
     return ts
